@@ -5,6 +5,12 @@ props = [json.loads(l) for l in open('/verif/properties.jsonl')]
 ids = [p['id'] for p in props]
 # id -> (category, technique, text, note, design_ref)
 checks = {
+ 'C01': ('exploration', 'grammar-bounded exhaustive query x table enumeration through the real root command (in-process) against a reference SQL evaluator',
+         'About 18k (query, table) cases: WHERE trees over 10 atoms, projections, DISTINCT, ORDER BY, LIMIT, FROM-subquery and WITH nestings over a table holding the whole 48-row NULL-heavy domain and over every small multiset of rows, as CSV (Int) and JSON (Float); printed rows must equal the reference as a multiset, in order under ORDER BY (tie groups as multisets).',
+         'Bounded grammar and domains; nested LIMIT that admits several answers is skipped; typecheck rejections counted.', '3/C01'),
+ 'C05': ('exploration', 'exhaustive enumeration of LIMIT x ORDER BY x row multisets x placement x all five output modes through the real root command, with a parser per output format',
+         'LIMIT 0..4, four ORDER BY forms, every multiset of <=4 rows over 3 (4) distinct rows, top level / nested in FROM / over a retracting counting-triggered GROUP BY, in live_table, batch_table, csv, json and stream_native: exactly min(n,N) rows, the first n of the sort order, duplicates counted individually.',
+         'Short comma/quote-free values so all formats parse unambiguously; tie order unspecified.', '3/C05'),
  'C09': ('exploration', 'exhaustive pair/triple enumeration over a value universe on the real Compare/Hash/CompareValueSlices/HashManyValues',
          'All pairs and triples of an 86-value (1091 thorough) universe incl. NaN payloads, signed zeros, infinities, instants in two locations, nested lists/objects/tuples: reflexive, antisymmetric, transitive, equal => same hash, bytewise strings, NULL first.',
          'Finite universe; the CLI-observable half (ORDER BY/GROUP BY/DISTINCT agreeing) is covered through C01/C03 query checks, not here.', '3/C09'),
